@@ -10,7 +10,8 @@
   Sub-directory scans: modules (`subscan_modules`), imports (`subscan_imports_spec`, `subscan_graph`) and the two
   spellings of absolute imports (`parent_relative_spec`, `parent_relative_graph`, `parent_relative_equiv`), with the
   vocabulary of Bridge/SubScan.lean (`portable`, `plain`, `parentRelative`) and the witnesses `subscan_ambiguity`,
-  `plain_needed` for the two side conditions. The module-object entry point is not modelled.
+  `plain_needed` for the two side conditions. The module-object entry point (`scanForModuleObjects`) is the path entry
+  point (`getEvaluableArchitecture`) on the two `dirname`s: last section.
 -/
 import Bridge.Abs
 import Bridge.ScanTree
@@ -18,6 +19,7 @@ import PtaProofs.Lemmas.ScanSpec
 import PtaProofs.Lemmas.ScanGraph
 import Bridge.SubScan
 import PtaProofs.Lemmas.SubScan
+import PtaProofs.Lemmas.EntryPoint
 namespace Pta.C04
 open Pta PtaSpec
 
@@ -503,5 +505,155 @@ theorem plain_needed :
         (toSEntries (exclOf noRe noEx) "/r/proj".toList (parentRelative "proj".toList (p ["proj"]) exAmb2)) (p ["proj"]) =
       some (q [("proj.proj.y", "proj.proj.z")]) := by
   refine ⟨by decide, by decide, by decide, by decide, by decide, by decide, by decide⟩
+
+/-! ### the two entry points: `get_evaluable_architecture` and `get_evaluable_architecture_for_module_objects`
+
+  PtaModel/Scan.lean: `dirname` (`posixpath.dirname`), `parsePath` / `PPath.str` / `PPath.name` / `PPath.relativeTo` (the part of
+  `pathlib` the entry point uses), `entryPaths`, `EntryArgs` (the six options), `getEvaluableArchitecture` (the path entry
+  point) and `scanForModuleObjects` (a module object is its `__file__`). The file system is the parameter `fs`:
+  `str(root_as_path)` ↦ the entries below that directory. -/
+section entry
+variable (mt : Str → Str → Bool) (fs : Str → List Entry)
+
+/-- `os.path.dirname(d + "/" + f)` is `d`, for a non-empty `d` that does not end in `/` and a last component `f`
+    without `/` (an empty `f` included) -/
+theorem dirname_spec (d f : Str) (hd : d ≠ []) (hlast : d.getLast? ≠ some '/') (hf : '/' ∉ f) :
+    dirname (d ++ '/' :: f) = d :=
+  Pta.Entry.dirname_spec_lemma d f hd hlast hf
+
+/-- the two cases `dirname_spec` leaves out: no `/` at all gives the empty string (and `Path("")` is the current
+    directory), a file directly below the file-system root gives `/` -/
+theorem dirname_no_slash (f : Str) (hf : '/' ∉ f) : dirname f = [] := Pta.Entry.dirname_no_slash f hf
+theorem dirname_root_file (f : Str) (hf : '/' ∉ f) : dirname ('/' :: f) = ['/'] := Pta.Entry.dirname_root_file f hf
+
+/-- the path entry point is `generate_graph` on what `entryPaths` derives from the two path strings — the root path
+    string, the root directory's name and the components of `module_path.relative_to(root_path)` — whenever the options
+    pass the checks of `entryOptionsError` and `exclusions` / `regex_exclusions` are not both absent. So every theorem
+    about `generateGraph` / `scanParsed` (this file, C02, C08, C09, C10) is a theorem about the entry point. -/
+theorem path_entry_eq_generateGraph (rootPath modulePath : Str) (a : EntryArgs) (base root : Str) (mp : List Str)
+    (o : ScanOptions) (hopt : entryOptionsError (a.flags true) = none)
+    (hpaths : entryPaths rootPath modulePath = .ok (base, root, mp)) (ho : a.scanOptions = some o) :
+    getEvaluableArchitecture mt fs rootPath modulePath a =
+      (generateGraph mt base root mp (fs base) o).mapError EntryErr.kind :=
+  Pta.Entry.getEvaluableArchitecture_eq mt fs rootPath modulePath a base root mp o hopt hpaths ho
+
+/-- what `entryPaths` returns is what the walk needs: `base` is `str(root_as_path)`, `root` its last component, and
+    `str(module_as_path)` — the path string the walk starts from and tests exclusions against — is `pathStr base mp`, the
+    string `scanParsed` uses. Needs a root path with at least one component: for the file-system root `/` (or `//`, or the
+    current directory `""`) `pathStr` would write `//a` (`./a`) where `pathlib` writes `/a` (`a`), see the example below. -/
+theorem entry_module_path_str (rootPath modulePath base root : Str) (mp : List Str)
+    (h : entryPaths rootPath modulePath = .ok (base, root, mp)) (hparts : (parsePath rootPath).parts ≠ []) :
+    (parsePath modulePath).str = pathStr base mp ∧ base = (parsePath rootPath).str ∧ root = (parsePath rootPath).name :=
+  Pta.Entry.entryPaths_module_str rootPath modulePath base root mp h hparts
+
+/-- the error table of C13 (`Pta.C13.options`, `entryOptionsError`) is about this entry point: with the flag
+    `modulePathInsideRoot` read as "`module_path.relative_to(root_path)` succeeds", every listed combination raises the
+    listed error -/
+theorem path_entry_option_error (rootPath modulePath : Str) (a : EntryArgs) (k : ErrKind)
+    (h : entryOptionsError (a.flags (entryPaths rootPath modulePath).toBool) = some k) :
+    getEvaluableArchitecture mt fs rootPath modulePath a = .error (.kind k) :=
+  Pta.Entry.getEvaluableArchitecture_option_error mt fs rootPath modulePath a k h
+
+/-- **module objects that are packages.** `root_module.__file__ = rdir/__init__.py`, `module.__file__ = mdir/__init__.py`:
+    the module-object entry point returns literally what the path entry point returns for `(rdir, mdir)` with the same
+    six options — graph or error. Every theorem about the path entry point transfers. -/
+theorem module_object_entry_eq_path_entry (rdir mdir : Str) (a : EntryArgs)
+    (hr : rdir ≠ []) (hr' : rdir.getLast? ≠ some '/') (hm : mdir ≠ []) (hm' : mdir.getLast? ≠ some '/') :
+    scanForModuleObjects mt fs ⟨rdir ++ "/__init__.py".toList⟩ ⟨mdir ++ "/__init__.py".toList⟩ a =
+      getEvaluableArchitecture mt fs rdir mdir a :=
+  Pta.Entry.scanForModuleObjects_eq mt fs rdir mdir "__init__.py".toList "__init__.py".toList a hr hr' hm hm'
+    (by decide) (by decide)
+
+/-- **a module object that is a plain file** `dir/x.py` (any file name `x` without `/`): the scanned directory is `dir`, the
+    PARENT PACKAGE of the module — the module-object entry point cannot scan a single file; it returns what the path
+    entry point returns for `dir`. (The same holds for the root module.) -/
+theorem module_object_plain_module (rdir dir rfile x : Str) (a : EntryArgs)
+    (hr : rdir ≠ []) (hr' : rdir.getLast? ≠ some '/') (hd : dir ≠ []) (hd' : dir.getLast? ≠ some '/')
+    (hrf : '/' ∉ rfile) (hx : '/' ∉ x) :
+    dirname (dir ++ '/' :: x) = dir ∧
+    scanForModuleObjects mt fs ⟨rdir ++ '/' :: rfile⟩ ⟨dir ++ '/' :: x⟩ a = getEvaluableArchitecture mt fs rdir dir a :=
+  ⟨dirname_spec dir x hd hd' hx, Pta.Entry.scanForModuleObjects_eq mt fs rdir dir rfile x a hr hr' hd hd' hrf hx⟩
+
+/-- so two module objects in the same directory — the package `dir/__init__.py` and a plain module `dir/x.py` — give the
+    same result -/
+theorem module_object_plain_eq_package (rdir dir x : Str) (a : EntryArgs)
+    (hr : rdir ≠ []) (hr' : rdir.getLast? ≠ some '/') (hd : dir ≠ []) (hd' : dir.getLast? ≠ some '/') (hx : '/' ∉ x) :
+    scanForModuleObjects mt fs ⟨rdir ++ "/__init__.py".toList⟩ ⟨dir ++ '/' :: x⟩ a =
+      scanForModuleObjects mt fs ⟨rdir ++ "/__init__.py".toList⟩ ⟨dir ++ "/__init__.py".toList⟩ a := by
+  have h1 : scanForModuleObjects mt fs ⟨rdir ++ "/__init__.py".toList⟩ ⟨dir ++ '/' :: x⟩ a =
+      getEvaluableArchitecture mt fs rdir dir a :=
+    (module_object_plain_module mt fs rdir dir "__init__.py".toList x a hr hr' hd hd' (by decide) hx).2
+  exact h1.trans (module_object_entry_eq_path_entry mt fs rdir dir a hr hr' hd hd').symm
+
+/-- transfer, spelled out once (`graph_modules_exact`): for package module objects, default-style options (external
+    modules excluded, no level limit) and a well-formed tree below the root directory, the nodes of the graph the
+    module-object entry point returns are exactly the rendered `scanModules` of the specification -/
+theorem module_object_modules_exact (rdir mdir : Str) (a : EntryArgs)
+    (hr : rdir ≠ []) (hr' : rdir.getLast? ≠ some '/') (hm : mdir ≠ []) (hm' : mdir.getLast? ≠ some '/')
+    (base root : Str) (mp : List Str) (o : ScanOptions) (hopt : entryOptionsError (a.flags true) = none)
+    (hpaths : entryPaths rdir mdir = .ok (base, root, mp)) (ho : a.scanOptions = some o)
+    (hwf : treeWFFor (exclOf mt o) base mp (fs base) = true) (hmp : mpOK (fs base) mp = true) (hroot : compWF root = true)
+    (hxx : o.excludeExternal = true) (hlim : o.levelLimit = none) (g : PGraph Str)
+    (h : scanForModuleObjects mt fs ⟨rdir ++ "/__init__.py".toList⟩ ⟨mdir ++ "/__init__.py".toList⟩ a = .ok g) (s : Str) :
+    s ∈ g.nodes ↔ ∃ n ∈ scanModules root (toSEntries (exclOf mt o) base (fs base)) mp, s = render n := by
+  rw [module_object_entry_eq_path_entry mt fs rdir mdir a hr hr' hm hm',
+    path_entry_eq_generateGraph mt fs rdir mdir a base root mp o hopt hpaths ho] at h
+  have hg : generateGraph mt base root mp (fs base) o = .ok g := by
+    cases hgg : generateGraph mt base root mp (fs base) o with
+    | error k => rw [hgg] at h; cases h
+    | ok g' => rw [hgg] at h; cases h; rfl
+  exact graph_modules_exact mt base root mp (fs base) o hwf hmp hroot hxx hlim g hg s
+
+end entry
+
+/-! non-vacuity: the example tree `exEntries` below `/r/proj`; root module `proj` (`/r/proj/__init__.py`), module `proj.a`
+    as a package object (`/r/proj/a/__init__.py`) and `proj.a.x` as a plain module object (`/r/proj/a/x.py`) -/
+section entryExamples
+
+/-- core has no `DecidableEq (Except ε α)` -/
+local instance instDecEqExcept {ε α : Type} [DecidableEq ε] [DecidableEq α] : DecidableEq (Except ε α)
+  | .ok a, .ok b => if h : a = b then isTrue (by rw [h]) else isFalse (by intro e; cases e; exact h rfl)
+  | .error a, .error b => if h : a = b then isTrue (by rw [h]) else isFalse (by intro e; cases e; exact h rfl)
+  | .ok _, .error _ => isFalse (by intro e; cases e)
+  | .error _, .ok _ => isFalse (by intro e; cases e)
+
+def errorOf {α : Type} : Except EntryErr α → Option EntryErr
+  | .error e => some e
+  | .ok _ => none
+def exFs : Str → List Entry := fun base => if base = "/r/proj".toList then exEntries else []
+def exArgs : EntryArgs := { exclusions := ["*cache".toList] }
+
+example : dirname "/r/proj/a/__init__.py".toList = "/r/proj/a".toList ∧ dirname "/r/proj/a/x.py".toList = "/r/proj/a".toList ∧
+    dirname "x.py".toList = [] ∧ dirname "/x.py".toList = "/".toList ∧ dirname "/r//proj///x.py".toList = "/r//proj".toList := by
+  decide
+/-- hypotheses of `module_object_entry_eq_path_entry` / `dirname_spec` -/
+example : "/r/proj".toList ≠ [] ∧ "/r/proj".toList.getLast? ≠ some '/' ∧ "/r/proj/a".toList ≠ [] ∧
+    "/r/proj/a".toList.getLast? ≠ some '/' ∧ '/' ∉ "x.py".toList := by decide
+/-- hypotheses of `path_entry_eq_generateGraph` / `module_object_modules_exact` -/
+example : entryPaths "/r/proj".toList "/r/proj/a".toList = .ok ("/r/proj".toList, "proj".toList, p ["a"]) := by decide
+example : entryPaths "/r/proj/".toList "/r//proj/./a/".toList = .ok ("/r/proj".toList, "proj".toList, p ["a"]) := by decide
+example : entryPaths "/r/proj/a".toList "/r/proj".toList = .error .lookupError := by decide
+example : (parsePath "/r/proj".toList).parts ≠ [] := by decide
+/-- the side condition of `entry_module_path_str` is needed: root directory `/` -/
+example : entryPaths "/".toList "/a".toList = .ok ("/".toList, [], p ["a"]) ∧ (parsePath "/a".toList).str = "/a".toList ∧
+    pathStr "/".toList (p ["a"]) = "//a".toList := by decide
+example : entryOptionsError (exArgs.flags true) = none := by decide
+example : (exArgs.scanOptions.map fun o => (o.excludeExternal, o.levelLimit)) = some (true, none) := by decide
+example : (({ exclusions := [] } : EntryArgs).scanOptions.isNone) = true := by decide
+set_option maxRecDepth 40000 in
+/-- the module-object entry point on the example: the sub-scan of `a` (6 nodes, 1 import inside `proj.a`) -/
+example : (scanForModuleObjects noRe exFs ⟨"/r/proj/__init__.py".toList⟩ ⟨"/r/proj/a/x.py".toList⟩ exArgs).toOption.map
+      (fun g => (g.nodes, g.importPairs)) =
+    some (["proj.a", "proj", "proj.a.__init__", "proj.a.x", "proj.a.s", "proj.a.s.t"].map String.toList,
+      [("proj.a.s.t".toList, "proj.a.x".toList)]) := by decide
+/-- option errors through the module-object entry point: both exclusion tuples; module outside the root -/
+example : errorOf (scanForModuleObjects noRe exFs ⟨"/r/proj/__init__.py".toList⟩ ⟨"/r/proj/a/__init__.py".toList⟩
+    { regexExclusions := some ["x".toList] }) = some (.kind .improperlyConfigured) := by decide
+example : errorOf (scanForModuleObjects noRe exFs ⟨"/r/proj/a/__init__.py".toList⟩ ⟨"/r/proj/__init__.py".toList⟩ exArgs)
+    = some (.kind .lookupError) := by decide
+example : errorOf (scanForModuleObjects noRe exFs ⟨"/r/proj/__init__.py".toList⟩ ⟨"/r/proj/a/__init__.py".toList⟩
+    { exclusions := [] }) = some .typeError := by decide
+
+end entryExamples
 
 end Pta.C04
